@@ -50,6 +50,27 @@ type callEnv struct {
 	resNames map[string]int
 }
 
+func (e *callEnv) isName(n string) bool {
+	if e == nil {
+		return false
+	}
+	_, ok := e.names[n]
+	return ok
+}
+
+// isLocalName: n is a parameter (or the receiver) of the function under verification.
+func (fr *Frame) isLocalName(n string) bool {
+	if fr.fn == nil {
+		return false
+	}
+	for _, p := range fr.fn.Params {
+		if p.Name() == n {
+			return true
+		}
+	}
+	return false
+}
+
 type specCtx struct {
 	fr      *Frame
 	st      *State
@@ -759,6 +780,48 @@ func (fr *Frame) evalSel(x *SSel, ctx *specCtx) SV {
 	return cur
 }
 
+// typeFieldKey: for an assigns location "T.f" where T names a struct type of the package (not a variable), the heap
+// key of field f of every T object; "" otherwise.
+func (g *Gen) typeFieldKey(e SExpr, pkgName string, locals func(string) bool) (string, types.Type) {
+	x, ok := e.(*SSel)
+	if !ok {
+		return "", nil
+	}
+	id, ok := x.X.(*SIdent)
+	if !ok || (locals != nil && locals(id.Name)) {
+		return "", nil
+	}
+	p := g.P.tpkgs[pkgName]
+	if p == nil {
+		return "", nil
+	}
+	tn, ok := p.Scope().Lookup(id.Name).(*types.TypeName)
+	if !ok {
+		return "", nil
+	}
+	st, ok := tn.Type().Underlying().(*types.Struct)
+	if !ok {
+		return "", nil
+	}
+	for i := 0; i < st.NumFields(); i++ {
+		if st.Field(i).Name() == x.Name {
+			k, _ := g.fieldKey(tn.Type(), i)
+			return k, st.Field(i).Type()
+		}
+	}
+	return "", nil
+}
+
+// refTermOf: the reference a pointer / slice value holds.
+func refTermOf(a SV) string {
+	if a.T != nil {
+		if _, ok := a.T.Underlying().(*types.Slice); ok {
+			return "(sl_ref " + a.Term + ")"
+		}
+	}
+	return a.Term
+}
+
 func lookupFieldAnyPkg(t types.Type, name string) (types.Object, []int, bool) {
 	if p, ok := t.Underlying().(*types.Pointer); ok {
 		t = p.Elem()
@@ -1049,7 +1112,7 @@ func (fr *Frame) evalCall(x *SCall, ctx *specCtx) SV {
 		return SV{Term: "(err_wraps " + arg(0).Term + " " + arg(1).Term + ")", K: svBool}
 	case "preexisting": // preexisting(p): the object p points to existed when the function was entered (or p is nil)
 		a := arg(0)
-		return SV{Term: "(<= " + a.Term + " " + g.entry.heap.get(g, g.topKey()) + ")", K: svBool}
+		return SV{Term: "(<= " + refTermOf(a) + " " + g.entry.heap.get(g, g.topKey()) + ")", K: svBool}
 	case "solid": // solid(v): interface value that is neither nil nor a nil pointer in an interface
 		a := arg(0)
 		if !isIface(a.T) {
@@ -1073,7 +1136,7 @@ func (fr *Frame) evalCall(x *SCall, ctx *specCtx) SV {
 		if ctx.old == nil {
 			fail("spec: fresh() needs an old state")
 		}
-		return SV{Term: "(> " + a.Term + " " + ctx.old.heap.get(g, g.topKey()) + ")", K: svBool}
+		return SV{Term: "(> " + refTermOf(a) + " " + ctx.old.heap.get(g, g.topKey()) + ")", K: svBool}
 	}
 	// conversion to a type of the current package or a predeclared type
 	if p := fr.pkgFor(ctx); p != nil {
